@@ -197,7 +197,11 @@ class C09(Check):
                 callargs.append(n)
         rtxt = "x"
         if flag == "const":
-            rtxt = '"%s"' % bytes.fromhex(recv[2:]).decode()
+            rtxt = "null" if recv == "N:?0" else '"%s"' % bytes.fromhex(recv[2:]).decode()
+        elif flag == "hth":
+            rtxt = "(x + null)"       # hands the lvalue of x through: receiver() works on a clone
+        elif flag == "tmp":
+            rtxt = '(x + "")'         # a temporary equal to x
         src = "r = %s.%s(%s);" % (rtxt, member, ", ".join(callargs))
         impl = "|".join(["new 0"] + setup + ["prog 0 " + hx(src), "dump 0"])
         line = "mb %s %s %s" % (member, recv, " ".join(args))
@@ -281,6 +285,8 @@ class C09(Check):
         recv = root + ".at(0)" * nchain
         pos = "0, " if op in ("put", "insert") else ("0" if op in ("at", "delete") else "")
         call = "r = %s.%s(%s%s);" % (recv, op, pos, ", ".join(names))
+        if op == "assign":
+            call = "%s = %s;" % (root, names[0])
         opened = frames[:len(frames) - post]
         closed = frames[len(frames) - post:]
         inner = ""
@@ -332,6 +338,12 @@ class C09(Check):
                             elem = {"i": "I:7", "s": "S:78", "u": TUP_IS[1]}[kind]
                         else:
                             elem = {"i": "I:7", "s": "I:65", "u": "I:7"}[kind]
+                        if nchain == 0:
+                            # assignment to the symbol itself (a value of its own static type): the lock of registerSymbol
+                            own = T if rl == dim else ("Ti1[I:9]" if rl == 1 else {"i": "I:7", "s": "S:78", "u": TUP_IS[1]}[kind])
+                            out.append(self.lockp_case(cid(), T, frames, post, "assign", root, 0, [own]))
+                            key = "%s|%s|%s" % ("nest%d" % len(frames) + ("post%d" % post if post else ""), "root=" + root, "assign")
+                            dist[key] = dist.get(key, 0) + 1
                         for op in ops:
                             args = [] if op in ("at", "count", "delete") else [elem]
                             out.append(self.lockp_case(cid(), T, frames, post, op, root, nchain, args))
@@ -427,6 +439,14 @@ class C09(Check):
                                     ("delete", [["I:0"], ["I:5"]]), ("concat", [["S:7879"], ["I:66"], ["N:s0"], ["I:300"]]), ("at", [["I:0"], ["I:5"]]), ("count", [[]])):
                 for args in argsets:
                     cases.append(self.mb_case(cid(), member, sv, args, "const"))
+                    # the same calls on an lvalue handed through and on a temporary: the variable must keep its value
+                    cases.append(self.mb_case(cid(), member, sv, args, "hth"))
+                    cases.append(self.mb_case(cid(), member, sv, args, "tmp"))
+                    self.stats["recvkind_cases"] = self.stats.get("recvkind_cases", 0) + 3
+        # the literal null as a receiver (constant: never overwritten)
+        for a in ("S:7879", "I:65", "I:0", "I:300", "N:s0", "N:?0", "R:78", "Ti1[I:1]"):
+            cases.append(self.mb_case(cid(), "concat", "N:?0", [a], "const"))
+            self.stats["recvkind_cases"] = self.stats.get("recvkind_cases", 0) + 1
         # null and non-container receivers
         nulls = ["N:i1", "N:?1", "N:s0", "N:r0", "N:?0", "N:u0#0", "N:i2", "N:u1#0", "I:5", "B:1", D15]
         nargs = ["I:1", "I:0", "I:66", "I:300", D15, "S:78", "R:78", "N:?0", "N:i0", "N:s0", "Ti1[I:1]", "Ts1[S:61]", "Ti2[Ti1[I:1]]", "N:i1", "N:?1",
@@ -475,6 +495,16 @@ class C09(Check):
         self.stats["tab_dist"] = {"element_values": len(tabx + nest), "counts_static": 9, "counts_opaque": 7, "level_limit_values": 4}
         cases.append(self.bi_case(cid(), "tab", []))
         cases.append(self.bi_case(cid(), "tup", []))
+        # tab(n, e) with an element expression whose TYPE changes between evaluations (a function choosing at random):
+        # the outcome must be one of the outcomes of the model over all scripts (uniform table, or VARYING_COLLECTION)
+        for cnt in (1, 2, 3, 4):
+            for (va, la), (vb, lb) in ((("I:1", "1"), ("S:61", '"a"')), (("I:1", "1"), (D15, "1.5")), (("S:61", '"a"'), ("N:s0", "str()"))):
+                for rep in range(4):
+                    src = ("function f() return undefined is begin if random(2) < 1 then return %s; end if; return %s; end; r = tab(%d, f());"
+                           % (la, lb, cnt))
+                    cases.append(Case(cid(), "bi tabrand I:%d %d %s %s" % (cnt, cnt, va, vb), "|".join(["new 0", "prog 0 " + hx(src), "dump 0"]),
+                                      {"kind": "tabrand", "src": src}))
+                    self.stats["tabrand_cases"] = self.stats.get("tabrand_cases", 0) + 1
         tupx = ["I:1", "N:i0", D15, "S:61", "N:s0", "R:00", "B:1", "N:?0", "N:b0", TUP_IS[0], "Ti1[I:1]", "N:?1", "N:u0#0"]
         for a in tupx:
             cases.append(self.bi_case(cid(), "tup", [a]))
@@ -635,10 +665,6 @@ class C09(Check):
             return
         if mout.startswith("hazard "):
             agree_model = outcomes_agree(out, mout)
-        elif kf == "C09.tab.levelWrap" and re.match(r"ok T[a-z]0(\{[^}]*\})?\[", mout):
-            # the model's outcome is a Collection typed with level 0 (`T<k>0[…]`): the implementation's Value has that scalar
-            # type and the collection's address as payload — the dump prints the scalar of that type, whatever its bits are
-            agree_model = bool(re.match(r"ok %s:" % mout[4].upper(), out))
         else:
             agree_model = out == mout
         model_ok_spec = (not mout.startswith("hazard ")) and satisfies(spec, mout)
@@ -771,6 +797,21 @@ class C09(Check):
                 return self.record_violation("forall write changed the source variable", c, self.sym(d, "V"), m)
             if d["cd"] != 0 or d["syms"].get("T", ("", "sxl1", ""))[1] != "s0l0":
                 return self.record_violation("residue after forall (control depth %d, flags %s)" % (d["cd"], d["syms"]["T"][1]), c, after, m)
+            return
+        if kind == "tabrand":
+            allowed = (mraw[len("model="):] if mraw.startswith("model=") else "").split(";;")
+            if crashed:
+                return self.record_violation("tab(n, random expression) crashed", c, iraw, {"model": mraw}, stderr)
+            prog, dump = parts[-2], parts[-1]
+            d = parse_dump(dump)
+            out = "ok " + self.sym(d, "R") if prog == "ok-" and d else " ".join(prog.split()[:2])
+            self.tally(c, out if not out.startswith("ok ") else "ok", {"model": mraw})
+            hits = self.stats.setdefault("tabrand_outcomes", {})
+            k = "ok" if out.startswith("ok ") else out
+            hits[k] = hits.get(k, 0) + 1
+            if out not in allowed:
+                return self.record_violation("tab(n, e) with a varying element expression: outcome %s is none of the model's outcomes over all scripts %s"
+                                             % (out, allowed), c, out, {"model": mraw}, stderr)
             return
         if kind == "lockp":
             m = split_answer(mraw)
